@@ -71,6 +71,13 @@ func (w *textWriter) WriteNull() error {
 
 // WriteNullType writes a typed null.
 func (w *textWriter) WriteNullType(t Type) error {
+	if w.err != nil {
+		return w.err
+	}
+	if int(t) >= len(textNulls) {
+		w.err = &UsageError{"Writer.WriteNullType", fmt.Sprintf("invalid type %v", t)}
+		return w.err
+	}
 	return w.writeValue("Writer.WriteNullType", textNulls[t], writeRawString)
 }
 
@@ -95,6 +102,13 @@ func (w *textWriter) WriteUint(val uint64) error {
 
 // WriteBigInt writes a (big) integer value.
 func (w *textWriter) WriteBigInt(val *big.Int) error {
+	if w.err != nil {
+		return w.err
+	}
+	if val == nil {
+		w.err = &UsageError{"Writer.WriteBigInt", "value is nil"}
+		return w.err
+	}
 	return w.writeValue("Writer.WriteBigInt", val.String(), writeRawString)
 }
 
@@ -105,6 +119,13 @@ func (w *textWriter) WriteFloat(val float64) error {
 
 // WriteDecimal writes an arbitrary-precision decimal value.
 func (w *textWriter) WriteDecimal(val *Decimal) error {
+	if w.err != nil {
+		return w.err
+	}
+	if val == nil {
+		w.err = &UsageError{"Writer.WriteDecimal", "value is nil"}
+		return w.err
+	}
 	return w.writeValue("Writer.WriteDecimal", val.String(), writeRawString)
 }
 
